@@ -22,7 +22,8 @@ RULE = (
     "stable linear networks (chains, branches, cycles with efflux; slowest relaxation rate >= 0.05) x default / "
     "user-supplied / zero initial values x tolerances 1e-4..1e-9 x absolute / relative norm through "
     "Simulator.simulate_to_steady_state and scan.steady_state; networks without a steady state: constant net influx, "
-    "accumulation behind a chain, exponential growth, undamped oscillators (omega 0.5..50). non-trivial = success "
+    "accumulation behind a chain, exponential growth, undamped oscillators (omega 0.5..50); in a third of the cases the "
+    "search continues a successful time course on the same simulator. non-trivial = success "
     "reported and compared with the analytic state, or a no-steady-state network; distinct = case hash"
 )
 ASSUMPTIONS = [
@@ -103,6 +104,9 @@ def run_case(case: dict) -> dict:
         tol = rng.choice([1e-4, 1e-6, 1e-8, 1e-9])
         rel = rng.random() < 0.4
         sim = Simulator(model, y0=y0)
+        if rng.random() < 0.3:
+            sim.simulate(round(rng.uniform(0.25, 4.0), 3), steps=rng.randint(1, 4))  # the search continues an earlier time course
+            counters["stable:after_a_time_course"] = 1
         sim.simulate_to_steady_state(tolerance=tol, rel_norm=rel)
         res = sim.get_result().value
         counters[f"y0:{mode}"] = 1
@@ -124,6 +128,10 @@ def run_case(case: dict) -> dict:
         tol = rng.choice([1e-4, 1e-6, 1e-8])
         rel = rng.random() < 0.3
         sim = Simulator(model)
+        if rng.random() < 0.4:
+            # a successful time course first: the failed search must still be what the result reports
+            sim.simulate(round(rng.uniform(0.25, 4.0), 3), steps=rng.randint(1, 4))
+            counters["nosteady:after_a_time_course"] = 1
         sim.simulate_to_steady_state(tolerance=tol, rel_norm=rel)
         res = sim.get_result().value
         nontrivial = True
